@@ -8,6 +8,7 @@ use crate::core::rng::Rng;
 use std::collections::BTreeSet;
 
 pub mod hist;
+pub mod sexp;
 
 macro_rules! kinds {
     ($($name:ident),* $(,)?) => {
